@@ -111,8 +111,15 @@ def design_runs(pid, tier, seed, wd):
             continue
         path = prop_cfg(cfg, pid, wd)
         if how in ("all", "inv"):
-            # "inv": exhaustive, VIEW without history, no behaviours printed
-            rc, out, st = vlib.tlc("MCOmaha", path, workers=8, name="design.%s.%s" % (pid, cfg), timeout=3000)
+            # "inv": exhaustive, VIEW without history, no behaviours printed; -coverage: which actions were taken how often
+            # (vacuity guard: an action never taken means its clauses were never exercised by this configuration)
+            rc, out, st = vlib.tlc("MCOmaha", path, workers=8, name="design.%s.%s" % (pid, cfg), timeout=3000,
+                                   extra=["-coverage", "1"])
+            acts = {}
+            for m_ in re.finditer(r"<(\w+) line \d+, col \d+ to line \d+, col \d+ of module Omaha>: (\d+):(\d+)", out):
+                acts[m_.group(1)] = max(acts.get(m_.group(1), 0), int(m_.group(3)))
+            st["actions_taken"] = {k: v for k, v in sorted(acts.items()) if v > 0 and k not in ("Init", "Next")}
+            st["actions_never_taken"] = sorted(k for k, v in acts.items() if v == 0 and k not in ("Init", "Next"))
         else:
             num = how * (6 if tier == "thorough" else 1)
             rc, out, st = vlib.tlc("MCOmaha", path, workers=1, name="design.%s.%s" % (pid, cfg),
@@ -129,8 +136,11 @@ def design_runs(pid, tier, seed, wd):
             behs.append((cfg, b))
         stats["states"] += st.get("states", 0)
         stats["transitions"] += st.get("transitions", 0)
-        stats["runs"].append({"cfg": cfg, "mode": how, "states": st.get("states", 0), "behaviours": len(behs) - n0,
-                              "wall_s": st.get("wall_s")})
+        run_rec = {"cfg": cfg, "mode": how, "states": st.get("states", 0), "behaviours": len(behs) - n0, "wall_s": st.get("wall_s")}
+        if "actions_taken" in st:
+            run_rec["actions_taken"] = st["actions_taken"]
+            run_rec["actions_never_taken"] = st["actions_never_taken"]
+        stats["runs"].append(run_rec)
     if tier == "thorough":
         for cfg in THOROUGH_INV.get(pid, []):
             path = prop_cfg(cfg, pid, wd)
